@@ -31,7 +31,8 @@ func escapeGJSON(key string) string {
 	var sb strings.Builder
 	for i := 0; i < len(key); i++ {
 		c := key[i]
-		if c >= 0x80 || c == '_' || c == '-' || (c >= '0' && c <= '9') || (c >= 'a' && c <= 'z') || (c >= 'A' && c <= 'Z') {
+		// '$', ':' and '/' have no meaning in gjson / sjson path syntax: users write them as they are
+		if c >= 0x80 || c == '_' || c == '-' || c == '$' || c == ':' || c == '/' || (c >= '0' && c <= '9') || (c >= 'a' && c <= 'z') || (c >= 'A' && c <= 'Z') {
 			sb.WriteByte(c)
 			continue
 		}
@@ -351,7 +352,7 @@ var placeholderPool = []string{`"<Any value>"`, `"x"`, `""`, `"a much longer pla
 
 // ---- YAML rendering of simple trees ---------------------------------------------------------------------------
 
-var yamlKeyPool = []string{"a", "b", "c", "name", "list", "zz", "key", "id"}
+var yamlKeyPool = []string{"a", "b", "c", "name", "list", "zz", "key", "id", "idToken", "nameLast", "k1", "k10"}
 
 func genYTree(t *rapid.T, depth int) JNode {
 	k := rapid.IntRange(0, 9).Draw(t, "yk")
@@ -648,6 +649,9 @@ func genMatcherStep(t *rapid.T, kind string, cur JNode, comps []pathComp) matche
 			st.Spec.ErrMissing = boolp(false)
 		}
 		st.Spec.Paths = paths
+	}
+	if st.Spec.ErrMissing != nil || len(st.Spec.Placeholder) > 0 {
+		st.Spec.Stmt = rapid.Bool().Draw(t, "stmtform")
 	}
 	return st
 }
@@ -1025,6 +1029,8 @@ func TestC15_MatchersTargeted(t *testing.T) {
 
 type c16Case struct {
 	Merged  bool          `json:"merged_any"` // all masked paths go into ONE Any matcher with ErrOnMissingPath(false)
+	// MergedPaths, if set: the path list of that one matcher (the masked paths interleaved with paths that do not exist)
+	MergedPaths []string `json:"merged_paths,omitempty"`
 	Kind    string        `json:"kind"`       // json | sjson | yaml
 	D       JNode         `json:"d"`
 	DPrime  JNode         `json:"d_masked_changed"`
@@ -1138,6 +1144,7 @@ func genC16(t *rapid.T) c16Case {
 			ms.Kind = "any"
 			if rapid.Bool().Draw(t, "ph") {
 				ms.Placeholder = json.RawMessage(rapid.SampledFrom([]string{`"x"`, `"«redacted»"`, `"<\"session\" id>"`, `7`, `"masked value placeholder"`}).Draw(t, "phv"))
+				ms.Stmt = rapid.Bool().Draw(t, "stmtform")
 			}
 		case k < 5 && node.K != "null":
 			ms.Kind = "type"
@@ -1152,10 +1159,30 @@ func genC16(t *rapid.T) c16Case {
 		masked = append(masked, comps)
 		c.Steps = append(c.Steps, matcherStep{Spec: ms, Comps: comps})
 	}
-	if len(c.Steps) >= 2 && rapid.IntRange(0, 2).Draw(t, "merged") == 0 {
+	if len(c.Steps) >= 1 && rapid.IntRange(0, 2).Draw(t, "merged") == 0 {
 		c.Merged = true
 		for i := range c.Steps {
 			c.Steps[i].Spec = MatcherSpec{Kind: "any", Paths: c.Steps[i].Spec.Paths}
+		}
+	}
+	if c.Merged && rapid.Bool().Draw(t, "mergedmissing") {
+		// paths that do not exist, listed next to the existing ones: the text of an existing path minus its last
+		// character (a sibling name that is a prefix: token / tokenExpiry), and an existing path plus one character
+		for _, st := range c.Steps {
+			p := st.Spec.Paths[0]
+			last := st.Comps[len(st.Comps)-1]
+			if parent, ok := c.D.at(st.Comps[:len(st.Comps)-1]); ok && !last.IsIdx && len(last.Key) >= 2 && escapeGJSON(last.Key) == last.Key {
+				trunc := last.Key[:len(last.Key)-1]
+				if _, exists := parent.at([]pathComp{{Key: trunc}}); !exists && parent.K == "obj" {
+					c.MergedPaths = append(c.MergedPaths, p[:len(p)-1])
+				}
+			}
+			c.MergedPaths = append(c.MergedPaths, p)
+			if parent, ok := c.D.at(st.Comps[:len(st.Comps)-1]); ok && !last.IsIdx && parent.K == "obj" && rapid.Bool().Draw(t, "longer") {
+				if _, exists := parent.at([]pathComp{{Key: last.Key + "x"}}); !exists {
+					c.MergedPaths = append(c.MergedPaths, p+"x")
+				}
+			}
 		}
 	}
 	c.DPrime = c.D
@@ -1200,9 +1227,12 @@ func (c c16Case) text(n JNode) string {
 
 func (c c16Case) specs() []MatcherSpec {
 	if c.Merged {
-		m := MatcherSpec{Kind: "any", ErrMissing: boolp(false)}
+		m := MatcherSpec{Kind: "any", ErrMissing: boolp(false), Stmt: len(c.Test)%2 == 1}
 		for _, st := range c.Steps {
 			m.Paths = append(m.Paths, st.Spec.Paths[0])
+		}
+		if len(c.MergedPaths) > 0 {
+			m.Paths = c.MergedPaths
 		}
 		return []MatcherSpec{m}
 	}
@@ -1368,6 +1398,17 @@ func classifyC16(c c16Case) ([]string, bool) {
 	if c.HasDD {
 		cls = append(cls, "unmasked_variant")
 	}
+	if c.Merged {
+		cls = append(cls, "merged_any")
+	}
+	if len(c.MergedPaths) > len(c.Steps) {
+		cls = append(cls, "merged_any_with_missing_sibling_paths")
+	}
+	for _, st := range c.Steps {
+		if !st.Comps[0].IsIdx && st.Comps[0].Key == "$" {
+			cls = append(cls, "path_below_dollar_key")
+		}
+	}
 	return uniq(cls), len(c.Steps) >= 1 && c.text(c.D) != c.text(c.DPrime)
 }
 
@@ -1379,6 +1420,8 @@ func TestC16_MaskedFields(t *testing.T) {
 
 type c17Matcher struct {
 	FailPath string     `json:"fail_path,omitempty"` // the path that must be named (default: the matcher's first path)
+	// DependsOnEarlier: this matcher fails only because an earlier, satisfiable matcher replaced the value it addresses
+	DependsOnEarlier bool `json:"fails_because_of_earlier_matcher,omitempty"`
 	Spec    MatcherSpec `json:"matcher"`
 	Failing bool        `json:"failing"` // must be named in the error
 	Ignored bool        `json:"ignored"` // missing path under ErrOnMissingPath(false)
@@ -1451,7 +1494,7 @@ func genC17(t *rapid.T) c17Case {
 	n := rapid.IntRange(1, 5).Draw(t, "nmatchers")
 	for i := 0; i < n; i++ {
 		m := c17Matcher{}
-		kind := rapid.IntRange(0, 9).Draw(t, "mk")
+		kind := rapid.IntRange(0, 11).Draw(t, "mk")
 		comps, ok := genExistingPath(t, c.Tree, true)
 		if ok {
 			for _, u := range used {
@@ -1502,6 +1545,9 @@ func genC17(t *rapid.T) c17Case {
 			} else if rapid.Bool().Draw(t, "explicit") {
 				m.Spec.ErrMissing = boolp(true)
 			}
+			if m.Spec.ErrMissing != nil {
+				m.Spec.Stmt = rapid.Bool().Draw(t, "stmtform")
+			}
 		case kind < 4 && !(yamlDoc && (node.K == "num" || node.K == "null")): // wrong type (an existing null is not a string either)
 			m.Spec = MatcherSpec{Kind: "type", Paths: []string{path}, TypeName: wrongType(node, yamlDoc)}
 			if rapid.Bool().Draw(t, "tolerantflag") {
@@ -1526,6 +1572,35 @@ func genC17(t *rapid.T) c17Case {
 				m.FailPath = child // after the parent was replaced by the placeholder the descendant does not exist any more
 			}
 			m.Failing = true
+			m.Comps = comps
+			used = append(used, comps)
+		case kind == 10 && (node.K == "obj" || node.K == "arr") && len(node.Kids) > 0 && (node.K == "arr" || (node.Keys[0] != "" && escapeGJSON(node.Keys[0]) == node.Keys[0])):
+			// two matchers: a satisfiable one replaces a container, a later one addresses a descendant of it, which does
+			// not exist any more once the first has taken effect (matchers take effect left to right)
+			child := path + ".0"
+			switch {
+			case node.K == "obj":
+				child = path + "." + node.Keys[0]
+			case yamlDoc:
+				child = path + "[0]"
+			}
+			first := c17Matcher{Spec: MatcherSpec{Kind: "any", Paths: []string{path}}, Comps: comps, Name: "Any"}
+			if rapid.Bool().Draw(t, "firstcustom") {
+				first = c17Matcher{Spec: MatcherSpec{Kind: "custom", Paths: []string{path}, Return: json.RawMessage(`"ok"`)}, Comps: comps, Name: "Custom"}
+			}
+			c.Matchers = append(c.Matchers, first)
+			m.Spec = MatcherSpec{Kind: rapid.SampledFrom([]string{"any", "custom"}).Draw(t, "secondkind"), Paths: []string{child}, Return: json.RawMessage(`"r"`)}
+			m.Failing = true
+			m.DependsOnEarlier = true
+			m.Comps = comps
+			used = append(used, comps)
+		case kind == 11 && (node.K == "obj" || node.K == "arr" || node.K == "bool" || (node.K == "num" && !yamlDoc)):
+			// the same Type matcher twice: the second one finds the placeholder string the first one left
+			first := c17Matcher{Spec: MatcherSpec{Kind: "type", Paths: []string{path}, TypeName: typeMatcherName(node)}, Comps: comps, Name: "Type"}
+			c.Matchers = append(c.Matchers, first)
+			m.Spec = first.Spec
+			m.Failing = true
+			m.DependsOnEarlier = true
 			m.Comps = comps
 			used = append(used, comps)
 		case kind < 6: // custom error
@@ -1727,6 +1802,18 @@ func classifyC17(c c17Case) ([]string, bool) {
 	}
 	if failing == 0 {
 		cls = append(cls, "no_failing_matcher")
+	}
+	indep := false
+	for _, m := range c.Matchers {
+		if m.Failing && !m.DependsOnEarlier {
+			indep = true
+		}
+		if m.DependsOnEarlier {
+			cls = append(cls, "fails_because_of_earlier_matcher")
+			if indep {
+				cls = append(cls, "fails_because_of_earlier_matcher_after_independent_failure")
+			}
+		}
 	}
 	return uniq(cls), nt
 }
